@@ -88,7 +88,7 @@ theorem C16_hebrew_rebuild_partial (n : Int) (g : Good n) :
   simp only [hc]
   have hnd : ¬ ((hebrewSpec.ofDay n).2.2 ≤ 0 ∨
       (hebrewSpec.ofDay n).2.2 > monthLen (hebrewSpec.ofDay n).1 (hebrewSpec.ofDay n).2.1) := by omega
-  rw [if_neg hnd, hny]
+  rw [if_neg hnd, hny, daysPreceding_eq _ _ h1 h2]
   unfold ACal.toDay at ht
   constructor
   · rw [if_neg (by simp)]; exact congrArg some ht
